@@ -315,6 +315,9 @@ def interleaving_cases(tier, seed):
         counts['Q'] = 1
         for order in merges(counts):
             yield {'leg': 'interleave', 'models': models, 'steps': steps, 'order': order, 'pseed': seed * 7 + 11}
+    # one large model (beyond small-population thresholds) with the ambient perturbations at every point of its life
+    for order in merges({'A': 3, 'P': 1, 'Q': 1}):
+        yield {'leg': 'interleave', 'models': [['crowd', s1]], 'steps': 1, 'order': order, 'pseed': seed * 7 + 11}
     if tier == 'thorough':
         models = [['plain', s1], ['grid', s2], ['space', s3]]
         counts = {'A': 4, 'B': 4, 'C': 4, 'P': 1}
